@@ -203,3 +203,24 @@ claim("C05", "other",
       "writer line templates vs reader consumption with symbolic case analysis in (cn, Nmax) (R-PROTO), file-handle typestate at "
       "all reader call sites (R-HANDLE), call-site argument roles of remove_pbc (R-PBC)",
       "DESIGN.md section 4, C05")
+
+claim("C13", "other",
+      "conditional_gr is interpreted once per kind (bool, complex, real scalar, vector, tensor, unknown) and conditional_sq once "
+      "per kind (bool, vector, scalar) with the kind tests folded. Decided for all inputs: every kind reaches its own weight "
+      "form and an unknown conditiontype raises; weights are Re(A_j conj A_i) with exactly one conjugated factor (complex, "
+      "vector), summed over components (vector), tr(A_i A_j) with slot j <-> particle i+1+j (tensor, decided on all i, j for "
+      "N=6), and belong to the same particles as the distance slice; both histograms bin the same minimum-image distances "
+      "(snapshot's cell, caller's mask) on the grid bins=int(L_min/(2 rdelta)), range (0, maxbin rdelta); normalisations reduce "
+      "to 2cV/(N^2 shell) with N = selected count for bool - the diagonal-partial monomial of gr.* with T=1 - and particle count "
+      "otherwise; gA_norm = (gA-<A>^2)/(<A^2>-<A>^2) exists only on the real-scalar arm, from the normalised gA. S(q): "
+      "q = n x 2 pi/L per axis, |q| row norm; F = sum_i [A_i] exp(-i q.r_i) over the (selected) particles with A_i and r_i of "
+      "the same particle, divided by sqrt(N_sel) / sqrt(N) before the modulus; S = Re(F conj F) (summed over components for "
+      "vectors); FFT column = F; values rounded before the average over equal |q|. A=1 -> totals and vector = sum over "
+      "components follow from these forms in exact arithmetic. Not decided: numerical agreement on data, np.histogram semantics.",
+      "Trusted: numpy histogram/trace/matmul semantics; idiom tables of pmsa/checks/c13.py. remove_pbc is decided under C02; the "
+      "partial columns of gr.* / sq.* under C03 / C04.",
+      "per-kind abstract interpretation with folded dispatch tests (R-DISPATCH); factor/conjugation/reduction parsing of weight "
+      "terms (R-ALG); index-set alignment incl. finite decision of the tensor slot map (R-ALIGN); exact algebra of normalisation "
+      "monomials and sibling equality with the partial g_aa / S_aa forms (R-ALG, R-SIB); call-site roles of remove_pbc (R-PBC); "
+      "ordering rule on the returned pair (R-ORDER)",
+      "DESIGN.md section 4, C13")
